@@ -1,7 +1,7 @@
 """C04 - any request size is answered safely: success within capacity or a clean error."""
 import re
 from engine import rule, Ob, key_of, EXPLAIN, ASSUME
-from sym import Lin, add, sub, const, tag, show, is_const, as_lin, implied_facts, struct_get
+from sym import Lin, add, sub, const, tag, show, is_const, as_lin, implied_facts, struct_get, _subst
 from util import *
 from order import Order, term_eq, atoms_deep
 
@@ -352,15 +352,23 @@ def e6(ctx):
                     if c["kind"] == "call" and c.get("inlined") and c["callee"].endswith("find_prev_and_next") and c["seq"] < a["seq"]:
                         fs |= set(canon(f) for f in callee_variant_facts(ctx, ev, c, ("Some",)))
                 x, y = canon(a["a"]), canon(a["b"])
-                order = Order(fs, extra_ge0=_bounds_for([x, y], a["body"]))
                 a2 = dict(a, a=x, b=y)
                 mx = TYMAX.get(a.get("ty") or "", None)
-                if a["op"] == "Sub":
-                    ok = order.le(y, x)
-                elif a["op"] == "Add":
-                    ok = overflow_discharged(order, a2) or (mx is not None and order.le(add(x, y), const(mx)))
-                else:
-                    ok = is_const(x) and is_const(y)
+
+                def bounded(x, y, fs):
+                    order = Order(fs, extra_ge0=_bounds_for([x, y], a["body"]))
+                    if a["op"] == "Sub":
+                        return order.le(y, x)
+                    if a["op"] == "Add":
+                        return overflow_discharged(order, dict(a, a=x, b=y)) or (mx is not None and order.le(add(x, y), const(mx)))
+                    return is_const(x) and is_const(y)
+                ok = bounded(x, y, fs)
+                if not ok:
+                    # operands that come out of a call chosen by a dispatch (`f = match kind { A => Self::a, B => Self::b }; f(..)`): judged per chosen call
+                    ph = chosen_call_join([x, y])
+                    if ph is not None:
+                        ok = all(bounded(canon(refold(ev, _subst(x, ph, alt))), canon(refold(ev, _subst(y, ph, alt))),
+                                         set(canon(refold(ev, _subst(f, ph, alt))) for f in fs)) for alt in ph[3])
                 why = ""
                 role = None
                 if not ok:
